@@ -24,7 +24,7 @@ type solverSpec struct {
 func stripZ3Options(s string) string {
 	var out []string
 	for _, l := range strings.Split(s, "\n") {
-		if strings.HasPrefix(l, "(set-option :smt.") {
+		if strings.HasPrefix(l, "(set-option :smt.") || strings.HasPrefix(l, "(set-option :timeout") {
 			continue
 		}
 		out = append(out, l)
@@ -89,149 +89,284 @@ func runSolverCtx(parent context.Context, sp solverSpec, path string, script str
 	return solveResult{status: st, solver: sp.name, ms: ms, output: txt}
 }
 
+// runSolverArgs runs a solver with explicit arguments (used for quick feasibility queries).
+func runSolverArgs(sp solverSpec, path, script string, args []string) solveResult {
+	p := path + "." + sp.name + ".smt2"
+	if err := os.WriteFile(p, []byte(sp.prep(script)), 0644); err != nil {
+		return solveResult{status: "error"}
+	}
+	ctx, cancel := context.WithTimeout(context.Background(), 5*time.Second)
+	defer cancel()
+	out, _ := exec.CommandContext(ctx, sp.bin, append(args, p)...).CombinedOutput()
+	first := strings.TrimSpace(strings.SplitN(string(out), "\n", 2)[0])
+	if first != "unsat" && first != "sat" {
+		first = "unknown"
+	}
+	return solveResult{status: first, solver: sp.name}
+}
+
 type solveStats struct {
 	mu        sync.Mutex
 	byBackend map[string]int
 	totalMs   int64
 	queries   int
+	sessions  int
 }
 
-// solveAll discharges obligations in parallel. quick: z3-new then (on unknown) z3 and cvc5.
-func solveAll(obls []*Obligation, workdir string, timeoutS int, workers int, thorough bool) *solveStats {
+func (s *solveStats) note(r solveResult) {
+	s.mu.Lock()
+	s.totalMs += r.ms
+	s.queries++
+	s.mu.Unlock()
+}
+
+func setStatus(o *Obligation, r solveResult, stats *solveStats) {
+	o.Solver = r.solver
+	o.Ms = r.ms
+	o.Output = r.output
+	switch {
+	case r.status == "error" && o.Expect == "unsat":
+		o.Status = "error"
+	case o.Expect == "unsat" && r.status == "unsat":
+		o.Status = "proved"
+	case o.Expect == "unsat" && r.status == "sat":
+		o.Status = "failed"
+	case o.Expect == "sat" && r.status == "unsat":
+		o.Status = "vacuous"
+	case o.Expect == "sat":
+		o.Status = "proved" // satisfiable, or not refuted
+		if r.status != "sat" {
+			o.Output = "not refuted (" + r.status + ")"
+		}
+	default:
+		o.Status = "unknown"
+	}
+	if o.Status == "proved" {
+		stats.mu.Lock()
+		stats.byBackend[r.solver]++
+		stats.mu.Unlock()
+	}
+}
+
+// standalone discharges one obligation with the solver portfolio (non-incremental scripts).
+func standalone(o *Obligation, workdir string, timeoutS int, thorough bool, stats *solveStats) {
+	script := o.script()
+	h := sha256.Sum256([]byte(script))
+	path := filepath.Join(workdir, hex.EncodeToString(h[:10]))
+	var results []solveResult
+	first := timeoutS
+	if first > 3 && !thorough {
+		first = 3
+	}
+	r := runSolver(solvers[0], path, script, first)
+	stats.note(r)
+	results = append(results, r)
+	final := r
+	definite := r.status == "unsat" || r.status == "sat"
+	if (!definite && o.Expect == "unsat") || thorough {
+		ch := make(chan solveResult, len(solvers))
+		cctx, ccancel := context.WithCancel(context.Background())
+		for _, sp := range solvers {
+			go func(sp solverSpec) { ch <- runSolverCtx(cctx, sp, path+"b", script, timeoutS) }(sp)
+		}
+		for range solvers {
+			r2 := <-ch
+			stats.note(r2)
+			results = append(results, r2)
+			if (r2.status == "unsat" || r2.status == "sat") && !(final.status == "unsat" || final.status == "sat") {
+				final = r2
+				if !thorough {
+					break
+				}
+			}
+		}
+		ccancel()
+	}
+	if thorough {
+		seen := map[string]string{}
+		for _, r := range results {
+			if r.status == "sat" || r.status == "unsat" {
+				seen[r.status] = r.solver
+			}
+		}
+		if len(seen) == 2 {
+			final = solveResult{status: "error", solver: "disagreement", output: fmt.Sprintf("solvers disagree: sat by %s, unsat by %s", seen["sat"], seen["unsat"])}
+		}
+	}
+	setStatus(o, final, stats)
+}
+
+// solveGroups discharges all obligations: one incremental z3 session per group first,
+// then the portfolio on whatever the session left open.
+func solveGroups(groups []*Group, tainted []*Obligation, workdir string, timeoutS int, workers int, thorough bool) *solveStats {
 	stats := &solveStats{byBackend: map[string]int{}}
 	os.MkdirAll(workdir, 0755)
-	type cacheEnt struct {
-		once sync.Once
-		res  solveResult
-		all  []solveResult
+	for _, o := range tainted {
+		o.Status = "undecided"
+		o.Output = "path left the supported subset: " + o.Tainted
 	}
-	var cmu sync.Mutex
-	cache := map[string]*cacheEnt{}
-	jobs := make(chan *Obligation)
+	var pending []*Obligation
+	var pmu sync.Mutex
+	jobs := make(chan *Group)
 	var wg sync.WaitGroup
+	perCheckMs := 3000
 	for w := 0; w < workers; w++ {
 		wg.Add(1)
 		go func() {
 			defer wg.Done()
-			for o := range jobs {
-				if o.Tainted != "" {
-					o.Status = "undecided"
-					o.Output = "path left the supported subset: " + o.Tainted
-					continue
-				}
-				if o.Expect == "unsat" && o.Goal == "true" {
-					o.Status = "proved"
-					o.Solver = "syntactic"
-					stats.mu.Lock()
-					stats.byBackend["syntactic"]++
-					stats.mu.Unlock()
-					continue
-				}
-				h := sha256.Sum256([]byte(o.Script))
-				key := hex.EncodeToString(h[:10])
-				cmu.Lock()
-				ce := cache[key]
-				if ce == nil {
-					ce = &cacheEnt{}
-					cache[key] = ce
-				}
-				cmu.Unlock()
-				ce.once.Do(func() {
-					path := filepath.Join(workdir, key)
-					var results []solveResult
-					final := solveResult{status: "unknown"}
-					note := func(r solveResult) {
-						results = append(results, r)
+			for g := range jobs {
+				// syntactic goals need no solver
+				var need []*Obligation
+				for _, o := range g.Obls {
+					if o.Expect == "unsat" && o.Goal == "true" {
+						o.Status, o.Solver = "proved", "syntactic"
 						stats.mu.Lock()
-						stats.totalMs += r.ms
-						stats.queries++
+						stats.byBackend["syntactic"]++
 						stats.mu.Unlock()
+					} else {
+						need = append(need, o)
 					}
-					// stage 1: z3-new with a short limit
-					first := timeoutS
-					if first > 3 && !thorough {
-						first = 3
-					}
-					r := runSolver(solvers[0], path, o.Script, first)
-					note(r)
-					final = r
-					definite := r.status == "unsat" || r.status == "sat"
-					if (!definite && o.Expect == "unsat") || thorough {
-						// stage 2: all solvers concurrently with the full limit
-						ch := make(chan solveResult, len(solvers))
-						cctx, ccancel := context.WithCancel(context.Background())
-						for _, sp := range solvers {
-							go func(sp solverSpec) { ch <- runSolverCtx(cctx, sp, path+"b", o.Script, timeoutS) }(sp)
-						}
-						for range solvers {
-							r2 := <-ch
-							note(r2)
-							if (r2.status == "unsat" || r2.status == "sat") && !(final.status == "unsat" || final.status == "sat") {
-								final = r2
-								if !thorough {
-									break
-								}
-							}
-						}
-						ccancel()
-					}
-					if thorough {
-						seen := map[string]string{}
-						for _, r := range results {
-							if r.status == "sat" || r.status == "unsat" {
-								seen[r.status] = r.solver
-							}
-						}
-						if len(seen) == 2 {
-							final = solveResult{status: "error", solver: "disagreement", output: fmt.Sprintf("solvers disagree: sat by %s, unsat by %s", seen["sat"], seen["unsat"])}
-						}
-					}
-					ce.res = final
-					ce.all = results
-				})
-				r := ce.res
-				o.Solver = r.solver
-				o.Ms = r.ms
-				o.Output = r.output
-				switch {
-				case r.status == "error" && o.Expect == "unsat":
-					o.Status = "error"
-				case o.Expect == "unsat" && r.status == "unsat":
-					o.Status = "proved"
-				case o.Expect == "unsat" && r.status == "sat":
-					o.Status = "failed"
-				case o.Expect == "sat" && r.status == "unsat":
-					o.Status = "vacuous"
-				case o.Expect == "sat":
-					o.Status = "proved" // sat or not refuted
-					if r.status != "sat" {
-						o.Output = "not refuted (" + r.status + ")"
-					}
-				default:
-					o.Status = "unknown"
 				}
-				if o.Status == "proved" {
-					stats.mu.Lock()
-					stats.byBackend[r.solver]++
-					stats.mu.Unlock()
+				if len(need) == 0 {
+					continue
+				}
+				sub := &Group{x: g.x, Obls: need}
+				script := sub.script(perCheckMs)
+				h := sha256.Sum256([]byte(script))
+				path := filepath.Join(workdir, "g"+hex.EncodeToString(h[:10]))
+				total := len(need)*perCheckMs/1000 + 10
+				t0 := time.Now()
+				r := runSolverRaw(solvers[0], path, script, total)
+				ms := time.Since(t0).Milliseconds()
+				stats.mu.Lock()
+				stats.sessions++
+				stats.totalMs += ms
+				stats.queries += len(need)
+				stats.mu.Unlock()
+				lines := []string{}
+				for _, l := range strings.Split(r, "\n") {
+					l = strings.TrimSpace(l)
+					if l == "sat" || l == "unsat" || l == "unknown" || l == "timeout" {
+						lines = append(lines, l)
+					}
+				}
+				for k, o := range need {
+					st := "unknown"
+					if k < len(lines) {
+						st = lines[k]
+					}
+					accept := false
+					if o.Expect == "sat" {
+						accept = true // vacuity guards: sat, unknown (not refuted) or unsat (vacuous) are all final
+					} else if st == "unsat" && !thorough {
+						accept = true
+					}
+					if accept {
+						setStatus(o, solveResult{status: st, solver: "z3-new", ms: ms / int64(len(need))}, stats)
+						continue
+					}
+					pmu.Lock()
+					pending = append(pending, o)
+					pmu.Unlock()
 				}
 			}
 		}()
 	}
-	for _, o := range obls {
-		jobs <- o
+	for _, g := range groups {
+		jobs <- g
 	}
 	close(jobs)
 	wg.Wait()
+	// second stage: standalone portfolio
+	jobs2 := make(chan *Obligation)
+	var wg2 sync.WaitGroup
+	for w := 0; w < workers; w++ {
+		wg2.Add(1)
+		go func() {
+			defer wg2.Done()
+			for o := range jobs2 {
+				standalone(o, workdir, timeoutS, thorough, stats)
+			}
+		}()
+	}
+	for _, o := range pending {
+		jobs2 <- o
+	}
+	close(jobs2)
+	wg2.Wait()
 	return stats
 }
 
-// modelFor re-runs a failed obligation asking for a model.
+// runSolverRaw runs a (multi check-sat) script and returns the raw output.
+func runSolverRaw(sp solverSpec, path, script string, timeoutS int) string {
+	p := path + "." + sp.name + ".smt2"
+	if err := os.WriteFile(p, []byte(sp.prep(script)), 0644); err != nil {
+		return ""
+	}
+	ctx, cancel := context.WithTimeout(context.Background(), time.Duration(timeoutS+5)*time.Second)
+	defer cancel()
+	cmd := exec.CommandContext(ctx, sp.bin, append(sp.args(timeoutS), p)...)
+	var out bytes.Buffer
+	cmd.Stdout = &out
+	cmd.Stderr = &out
+	_ = cmd.Run()
+	return out.String()
+}
+
+// solveResults: convenience for callers holding FuncResults.
+func solveResults(results []*FuncResult, keep func(*Obligation) bool, workdir string, timeoutS int, workers int, thorough bool) (*solveStats, []*Obligation) {
+	var groups []*Group
+	var tainted, all []*Obligation
+	for _, r := range results {
+		for _, o := range r.Obls {
+			if keep != nil && !keep(o) {
+				continue
+			}
+			all = append(all, o)
+			if o.Tainted != "" {
+				tainted = append(tainted, o)
+			}
+		}
+		for _, g := range r.Groups {
+			ng := &Group{x: g.x}
+			for _, o := range g.Obls {
+				if keep == nil || keep(o) {
+					ng.Obls = append(ng.Obls, o)
+				}
+			}
+			if len(ng.Obls) > 0 {
+				groups = append(groups, ng)
+			}
+		}
+	}
+	return solveGroups(groups, tainted, workdir, timeoutS, workers, thorough), all
+}
+
+// modelFor re-runs a failed obligation asking for a model; quantified facts are kept
+// first, and dropped in a second attempt (a candidate model for replay only).
 func modelFor(o *Obligation, workdir string) string {
-	script := strings.Replace(o.Script, "(check-sat)\n", "(check-sat)\n(get-model)\n", 1)
-	script = "(set-option :produce-models true)\n" + script
+	script := o.script()
+	withModel := func(s string) string {
+		s = strings.Replace(s, "(set-option :smt.mbqi false)\n", "", 1)
+		return "(set-option :produce-models true)\n" + strings.Replace(s, "(check-sat)\n", "(check-sat)\n(get-model)\n", 1)
+	}
 	h := sha256.Sum256([]byte(script))
 	path := filepath.Join(workdir, "m"+hex.EncodeToString(h[:10]))
-	r := runSolver(solvers[0], path, script, 20)
+	r := runSolver(solvers[0], path, withModel(script), 10)
+	if r.status == "sat" {
+		return r.output
+	}
+	// relaxed: drop quantified assertions
+	var keep []string
+	for _, l := range strings.Split(script, "\n") {
+		if strings.HasPrefix(l, "(assert") && strings.Contains(l, "(forall ") {
+			continue
+		}
+		keep = append(keep, l)
+	}
+	r2 := runSolver(solvers[0], path+"r", withModel(strings.Join(keep, "\n")), 10)
+	if r2.status == "sat" {
+		return "; candidate model (quantified facts dropped)\n" + r2.output
+	}
 	return r.output
 }
